@@ -4,10 +4,10 @@ package main
 // evidence and replay files, print VIOLATION / KNOWN-FINDING lines.
 
 import (
-	"go/types"
 	"encoding/json"
 	"flag"
 	"fmt"
+	"go/types"
 	"os"
 	"path/filepath"
 	"regexp"
